@@ -113,6 +113,9 @@ def query (par : Params α) (KT : α) (x : Inp α) : α × Query α :=
   let mq := if par.soluble then clip x.m else [x.m.headD 0]
   (KT', { m := mq, T := T', P := x.P, Sa := x.Sa, Ta := x.Ta, clean := isClean x.t par.tHyd })
 
+/-- the question handed to `seawater.density` when it is consulted: `(Ta, Sa, P)` of the call -/
+def swQuery (x : Inp α) : α × α × α := (x.Ta, x.Sa, x.P)
+
 /-- β after the per-component cut-off (before scaling by K) -/
 def betaCut (par : Params α) (mq : List α) (lib : Lib α) : List α :=
   cutoff par.fdis (fracDiss mq par.m0) lib.beta
@@ -226,7 +229,8 @@ def parseCalls : List Arg → Option (List (Call Float))
           rhoAmb := rhoAmb } :: cs
   | _ => none
 
-/-- per call: KT' n:asksLib n:asksSw v:q.m q.T n:clean us rhoP A v:Cs v:beta betaT T v:kbio -/
+/-- per call: KT' n:asksLib n:asksSw v:q.m q.T n:clean us rhoP A v:Cs v:beta betaT T v:kbio
+    swT swS swP (17 args) -/
 def showHistory (par : Params Float) : Float → List (Call Float) → List Arg
   | _, [] => []
   | KT, c :: cs =>
@@ -234,7 +238,8 @@ def showHistory (par : Params Float) : Float → List (Call Float) → List Arg
       let q := (query par KT c.x).2
       [.s r.1, boolArg (asksLib c), boolArg (asksSw par KT c), .v q.m, .s q.T, boolArg q.clean,
        .s r.2.1.us, .s r.2.1.rhoP, .s r.2.1.A, .v r.2.1.Cs, .v r.2.1.beta, .s r.2.1.betaT,
-       .s r.2.1.T, .v r.2.2] ++ showHistory par r.1 cs
+       .s r.2.1.T, .v r.2.2, .s (swQuery c.x).1, .s (swQuery c.x).2.1, .s (swQuery c.x).2.2]
+        ++ showHistory par r.1 cs
 
 def dispatch : Dispatch := fun name args =>
   match name, args with
